@@ -2533,8 +2533,10 @@ impl Formatter {
       let s = self.dot(ident);
       if i == 0 {
         src = format!("{}", s);
-      } else {
+      } else if self.html {
         src = format!("{},{}", src, s);
+      } else {
+        src = format!("{},{}", src, ident.to_string());
       }
     }
     if self.html {
